@@ -139,6 +139,7 @@ def strategy(tier: str, pid: str = "C16") -> st.SearchStrategy[Any]:
         return out[: (nops + 2) if not any(item and isinstance(item[0], list) and len(item) > 20 for item in items) else 160]
 
     single = st.fixed_dictionaries({
+        "rewired": st.sampled_from([False, False, False, True]),
         "ops": st.lists(st.one_of(op, op, op, op, phrase), min_size=4, max_size=nops).map(flatten),
         "pool": pool_status,
     })
@@ -347,7 +348,17 @@ def run_case(case: Any, pid: str) -> Verdict:
         comps = {fakes.grid(1), fakes.bat_inverter(8), fakes.battery(9)}
         conns = {Connection(1, 8), Connection(8, 9)}
         api = fakes.FakeApi(comps, conns)
-        with fakes.connection(fakes.build_graph(comps, conns), api):
+        graph = fakes.build_graph(comps, conns)
+        if case.get("rewired"):
+            # the topology was different earlier (battery 9 behind another inverter), was queried, and has been refreshed
+            # to the present one before the tracker is created: the tracker must follow the present inverter
+            old_comps = comps | {fakes.bat_inverter(18)}
+            graph = fakes.build_graph(old_comps, {Connection(1, 8), Connection(1, 18), Connection(18, 9)})
+            graph.predecessors(9)
+            graph.successors(18)
+            graph.refresh_from(comps, conns)
+            v.labels.add("topology_refreshed_before_the_tracker_was_created")
+        with fakes.connection(graph, api):
             status_chan: Any = Broadcast(name="status")
             results_chan: Any = Broadcast(name="results")
             status_rx = status_chan.new_receiver(limit=10000)
